@@ -161,6 +161,9 @@ HARNESS_FILES = {
     "log": {
         "internal/dag/scheduler/zz_verif_hooks.go": "go/hooks/dagscheduler_hooks_verif.go",
     },
+    "stamp": {
+        "internal/persistence/jsondb/zz_verif_stamp_hooks.go": "go/hooks/jsondb_stamp_hooks_verif.go",
+    },
 }
 
 
